@@ -106,3 +106,136 @@ def peel(t, extra_rx=None, payloads=True, casts=False):
 
 def same(a, b):
     return a == b
+
+
+# --------------------------------------------------------------------------------------
+# affine normal form of integer origin terms
+# --------------------------------------------------------------------------------------
+
+_WIDEN_OK = {
+    ("u8", "u16"), ("u8", "u32"), ("u8", "u64"), ("u8", "usize"), ("u16", "u32"), ("u16", "u64"), ("u16", "usize"),
+    ("u32", "u64"), ("u32", "usize"), ("usize", "u64"), ("u64", "usize"),
+    ("u8", "i16"), ("u8", "i32"), ("u8", "i64"), ("u16", "i32"), ("u16", "i64"), ("u32", "i64"),
+    ("i8", "i16"), ("i8", "i32"), ("i8", "i64"), ("i16", "i32"), ("i16", "i64"), ("i32", "i64"), ("i64", "isize"), ("isize", "i64"),
+}
+
+
+class Aff:
+    """c + sum coef*atom ; atoms are hashable canonical descriptions."""
+    __slots__ = ("c", "m")
+
+    def __init__(self, c=0, m=None):
+        self.c = c
+        self.m = {k: v for k, v in (m or {}).items() if v != 0}
+
+    def add(self, o, k=1):
+        m = dict(self.m)
+        for a, v in o.m.items():
+            m[a] = m.get(a, 0) + k * v
+        return Aff(self.c + k * o.c, m)
+
+    def scale(self, k):
+        return Aff(self.c * k, {a: v * k for a, v in self.m.items()})
+
+    def is_const(self):
+        return not self.m
+
+    def key(self):
+        return (self.c, tuple(sorted(self.m.items(), key=repr)))
+
+    def __eq__(self, o):
+        return isinstance(o, Aff) and self.key() == o.key()
+
+    def __hash__(self):
+        return hash(self.key())
+
+    def __repr__(self):
+        parts = []
+        for a, v in sorted(self.m.items(), key=repr):
+            parts.append(("%d*" % v if v != 1 else "") + atom_str(a))
+        if self.c or not parts:
+            parts.append(str(self.c))
+        return " + ".join(parts)
+
+
+def atom_str(a):
+    if isinstance(a, tuple):
+        if a[0] == "div":
+            return "(%r)/%d" % (a[1], a[2])
+        if a[0] == "rem":
+            return "(%r)%%%d" % (a[1], a[2])
+        if a[0] == "shr":
+            return "(%r)>>%d" % (a[1], a[2])
+        if a[0] == "len":
+            return "len(%s)" % atom_str(a[1])
+        if a[0] == "path":
+            return ".".join(str(x) for x in a[1:])
+        if a[0] == "opaque":
+            return "<%s>" % a[1]
+    return str(a)
+
+
+def access_path(t):
+    """Canonical access path of a param/field chain, or None."""
+    t = peel(t)
+    names = []
+    while isinstance(t, tuple) and t[0] == "field":
+        names.append(str(t[2]))
+        t = peel(t[1])
+    if isinstance(t, tuple) and t[0] == "param":
+        return ("path", t[2]) + tuple(reversed(names))
+    return None
+
+
+def affine(t, atomize=None, depth=0):
+    """Affine normal form of an integer term; unknown sub-terms become opaque atoms."""
+    if depth > 60:
+        return Aff(0, {("opaque", "depth"): 1})
+    if atomize is not None:
+        a = atomize(t)
+        if a is not None:
+            return Aff(0, {a: 1})
+    ci = const_int(t)
+    if ci is not None:
+        return Aff(ci)
+    if isinstance(t, tuple):
+        k = t[0]
+        if k == "cast" and t[3] == "IntToInt" and (t[4], t[2]) in _WIDEN_OK:
+            return affine(t[1], atomize, depth + 1)
+        if k == "call" and re.search(r"(convert::From<.*>>::from|convert::Into<.*>>::into|::from)$", t[1]) and len(t[2]) == 1:
+            return affine(t[2][0], atomize, depth + 1)
+        if k == "bin":
+            op = t[1]
+            if op in ("Add", "AddWithOverflow", "AddUnchecked"):
+                return affine(t[2], atomize, depth + 1).add(affine(t[3], atomize, depth + 1))
+            if op in ("Sub", "SubWithOverflow", "SubUnchecked"):
+                return affine(t[2], atomize, depth + 1).add(affine(t[3], atomize, depth + 1), -1)
+            if op in ("Mul", "MulWithOverflow", "MulUnchecked"):
+                a, b = affine(t[2], atomize, depth + 1), affine(t[3], atomize, depth + 1)
+                if a.is_const():
+                    return b.scale(a.c)
+                if b.is_const():
+                    return a.scale(b.c)
+            if op in ("Div", "Rem", "Shr"):
+                a, b = affine(t[2], atomize, depth + 1), affine(t[3], atomize, depth + 1)
+                if b.is_const() and b.c > 0:
+                    if op == "Shr":
+                        return Aff(0, {("div", a, 1 << b.c): 1})
+                    if a.is_const() and a.c >= 0:
+                        return Aff(a.c // b.c if op == "Div" else a.c % b.c)
+                    return Aff(0, {("div" if op == "Div" else "rem", a, b.c): 1})
+            if op == "BitAnd":
+                a, b = affine(t[2], atomize, depth + 1), affine(t[3], atomize, depth + 1)
+                for x, y in ((a, b), (b, a)):
+                    if y.is_const() and y.c > 0 and (y.c & (y.c + 1)) == 0:
+                        return Aff(0, {("rem", x, y.c + 1): 1})
+        if k == "field" and isinstance(t[1], tuple) and t[1][0] == "bin" and t[3] == 0:
+            return affine(t[1], atomize, depth + 1)
+        if k == "call" and re.search(r"(::len|ExactSizeIterator::len)$", t[1]) and len(t[2]) == 1:
+            ap = access_path(t[2][0])
+            if ap is not None:
+                return Aff(0, {("len", ap): 1})
+        ap = access_path(t)
+        if ap is not None:
+            return Aff(0, {ap: 1})
+    return Aff(0, {("opaque", repr(t)[:200]): 1})
